@@ -135,6 +135,9 @@ func evalName(node *jparse.NameNode, data reflect.Value, env *environment) (refl
 	data = jtypes.Resolve(data)
 
 	switch {
+	case jtypes.IsCallable(data):
+		// Functions have no members.
+		return undefined, nil
 	case jtypes.IsStruct(data):
 		v = data.FieldByName(node.Value)
 	case jtypes.IsMap(data):
@@ -1264,7 +1267,7 @@ func walkObjectValues(v reflect.Value, fn func(reflect.Value)) {
 		for _, k := range v.MapKeys() {
 			fn(v.MapIndex(k))
 		}
-	case jtypes.IsStruct(v):
+	case jtypes.IsStruct(v) && !jtypes.IsCallable(v):
 		for i, N := 0, v.NumField(); i < N; i++ {
 			fn(v.Field(i))
 		}
